@@ -21,6 +21,7 @@ import (
 type PropCfg struct {
 	Pkg      string   `json:"pkg"`      // package dir of the replay harness ("." or "stanza")
 	Funcs    []string `json:"funcs"`    // functions under contract in this property's closure
+	DepSkip  []string `json:"dep_skip"` // label prefixes of dependency clauses that are verified under their own property only
 	Deps     []string `json:"deps"`     // functions whose whole contract (all labels) is re-verified here because this property's proofs rely on it
 	Lemmas   []string `json:"lemmas"`   // lemma labels
 	Replay   string   `json:"replay"`   // replay harness name (file replay/<name>_replay_test.go)
@@ -303,7 +304,15 @@ func cmdCheck(args []string) int {
 			genFailures = append(genFailures, "unsupported: "+s)
 		}
 		for _, o := range ur.u.Obls {
-			if belongs(o.Label, *prop) || isDep[ur.key] {
+			skip := false
+			for _, pre := range cfg.DepSkip {
+				for _, l := range strings.Split(o.Label, ",") {
+					if strings.HasPrefix(strings.TrimSpace(l), pre) {
+						skip = true
+					}
+				}
+			}
+			if belongs(o.Label, *prop) || (isDep[ur.key] && !skip) {
 				obls = append(obls, o)
 			}
 		}
@@ -412,11 +421,22 @@ func cmdCheck(args []string) int {
 		reports = append(reports, rep)
 	}
 	// baseline: obligations that existed on the unchanged tree must still exist
+	// (contract-level obligations only - postconditions, loop contracts, call-site assertions, lemmas, scans - by
+	// clause, not by ordinal: the number of safety checks and callee preconditions follows the shape of the code,
+	// and a harmless edit changes it)
 	var missing []string
 	if !*updateBaseline {
+		have := map[string]bool{}
+		for n := range names {
+			if k := baselineKey(n); k != "" {
+				have[k] = true
+			}
+		}
+		seenMissing := map[string]bool{}
 		for _, n := range baseline[*prop] {
-			if !names[n] {
-				missing = append(missing, n)
+			if k := baselineKey(n); k != "" && !have[k] && !seenMissing[k] {
+				seenMissing[k] = true
+				missing = append(missing, k)
 			}
 		}
 	}
@@ -425,8 +445,12 @@ func cmdCheck(args []string) int {
 			baseline = map[string][]string{}
 		}
 		var ns []string
+		seenKey := map[string]bool{}
 		for _, r := range results {
-			ns = append(ns, r.Obl.Name)
+			if k := baselineKey(r.Obl.Name); k != "" && !seenKey[k] {
+				seenKey[k] = true
+				ns = append(ns, k)
+			}
 		}
 		sort.Strings(ns)
 		baseline[*prop] = ns
@@ -791,4 +815,23 @@ func firstLines(s string, n int) string {
 		ls = ls[:n]
 	}
 	return strings.Join(ls, "\n")
+}
+
+// baselineKey maps an obligation name to the contract clause it comes from ("" for obligations that follow the
+// shape of the code rather than the contract: safety checks, callee preconditions, frame checks, return covers).
+func baselineKey(name string) string {
+	i := strings.Index(name, "#")
+	if i < 0 {
+		return name
+	}
+	kind := name[i+1:]
+	if j := strings.LastIndex(kind, "@"); j >= 0 && !strings.Contains(kind[j:], "]") && !strings.Contains(kind[j:], ")") {
+		kind = kind[:j]
+	}
+	switch {
+	case strings.HasPrefix(kind, "post"), strings.HasPrefix(kind, "loop"), strings.HasPrefix(kind, "atcall"), strings.HasPrefix(kind, "lemma"),
+		strings.HasPrefix(kind, "bind"), strings.HasPrefix(kind, "cover.pre"), strings.HasPrefix(kind, "cover.loop"):
+		return name[:i+1] + kind
+	}
+	return ""
 }
